@@ -246,6 +246,11 @@ class Check:
         if not names:
             self.obligation("property theorems present", False, f"no theorem {prefix}_* in {mods}")
             return
+        if self.tier == "thorough":
+            # independent re-check of the compiled modules by the toolchain's leanchecker
+            with LeanLock():
+                pc = subprocess.run(["lake", "env", "leanchecker", *mods], cwd=LEAN, capture_output=True, text=True, timeout=3000)
+            self.obligation("leanchecker " + " ".join(mods), pc.returncode == 0, (pc.stdout + pc.stderr)[-800:])
         ax, raw = lean_axioms(self.prop, mods, names)
         self.axioms = ax
         for n in names:
@@ -310,7 +315,7 @@ class Check:
                 continue
             seen_what.add(f["what"])
             path = REPLAYS / f"{self.prop}-{self.seed}-{len(seen_what)}.json"
-            path.write_text(json.dumps({"property": self.prop, "kind": "failing-input", **f}, indent=1, default=str))
+            path.write_text(json.dumps({"property": self.prop, "kind": "failing-input", "seed": self.seed, "tier": self.tier, **f}, indent=1, default=str))
             print(f"VIOLATION property={self.prop} replay={path}")
             n_viol += 1
             rc = 1
@@ -320,7 +325,7 @@ class Check:
         if broken and not unlisted:
             path = REPLAYS / f"{self.prop}-{self.seed}-broken.json"
             path.write_text(json.dumps({
-                "property": self.prop, "kind": "no-failing-input-found", "no_longer_checks": broken,
+                "property": self.prop, "kind": "no-failing-input-found", "seed": self.seed, "tier": self.tier, "no_longer_checks": broken,
                 "obligations": [o for o in self.obligations if not o["ok"]],
                 "correspondence": {k: s for k, s in self.streams.items() if s["disagreements"]},
             }, indent=1, default=str))
